@@ -7,7 +7,7 @@ package txtar
 
 //@ property C03: isMarker, findFileMarker, fixNL, Parse
 //@ bounded C03: TestVerifBoundedParseRoundTrip
-//@ property C14: NeedsQuote, Quote, lemma:quotedSafe, cmd/txtar-c/main$1, isMarker, findFileMarker, fixNL
+//@ property C14: NeedsQuote, Quote, lemma:quotedSafe, cmd/txtar-c/main$1, isMarker, findFileMarker, fixNL, testscript/(*TestScript).applyScriptUpdates, testscript/(*TestScript).cmdUnquote
 //@ bounded C14: TestVerifBoundedUnquoteQuote
 
 // Vocabulary (from the txtar format description and properties C03/C14).
